@@ -1,13 +1,17 @@
 ---------------------------- MODULE MC_Classify ----------------------------
 EXTENDS Classify
 \* scaled thresholds: min tag 2, prefix tag 3, obfs4 min 3 / max 6
-Flight(t, ok, terr, H, pofs, total, occ) == [t |-> t, ok |-> ok, terr |-> terr, H |-> H, pofs |-> pofs, total |-> total, occ |-> occ]
+\* own: the stream is the flight of R, the registration whose table history the module follows (Init: valid / tracked / gone)
+Flight(t, ok, terr, H, pofs, total, occ, own) == [t |-> t, ok |-> ok, terr |-> terr, H |-> H, pofs |-> pofs, total |-> total, occ |-> occ, own |-> own]
 MCCases ==
-  {Flight("none", FALSE, FALSE, 0, 0, tot, occ) : tot \in {0, 2, 7}, occ \in {0, 1}} \cup          \* garbage of several lengths
-  {Flight("none", FALSE, FALSE, 0, 1, 7, 1)} \cup                                                  \* static prefix + garbage
-  {Flight("min", ok, FALSE, 2, 0, tot, 1) : ok \in BOOLEAN, tot \in {2, 4}} \cup                   \* min flight (+ early data)
-  {Flight("prefix", ok, FALSE, 3 + p, p, 3 + p + d, 1) : ok \in BOOLEAN, p \in {0, 1}, d \in {0, 2}} \cup
-  {Flight("prefix", FALSE, TRUE, 3 + p, p, 4 + p, 1) : p \in {0, 1}} \cup                         \* valid tag, wrong prefix id
-  {Flight("obfs4", ok, FALSE, h, 0, h, 1) : ok \in BOOLEAN, h \in {3, 5}} \cup
-  {Flight("obfs4", FALSE, TRUE, 4, 0, 4, 1)}
+  {Flight("none", FALSE, FALSE, 0, 0, tot, occ, FALSE) : tot \in {0, 2, 7}, occ \in {0, 1}} \cup          \* garbage of several lengths
+  {Flight("none", FALSE, FALSE, 0, 1, 7, 1, FALSE)} \cup                                                  \* static prefix + garbage
+  {Flight("min", ok, FALSE, 2, 0, tot, 1, ok) : ok \in BOOLEAN, tot \in {2, 4}} \cup                   \* min flight (+ early data)
+  {Flight("min", TRUE, FALSE, 2, 0, 2, 1, FALSE)} \cup                                                  \* another client of the phantom
+  {Flight("prefix", ok, FALSE, 3 + p, p, 3 + p + d, 1, ok) : ok \in BOOLEAN, p \in {0, 1}, d \in {0, 2}} \cup
+  {Flight("prefix", FALSE, TRUE, 3 + p, p, 4 + p, 1, TRUE) : p \in {0, 1}} \cup                         \* valid tag, wrong prefix id
+  {Flight("obfs4", ok, FALSE, h, 0, h, 1, ok) : ok \in BOOLEAN, h \in {3, 5}} \cup
+  {Flight("obfs4", FALSE, TRUE, 4, 0, 4, 1, TRUE)}
+\* a small case set for the instances that are broken across connections: R's flight, another client of the phantom, a probe
+SessCases == {Flight("min", TRUE, FALSE, 2, 0, 2, 1, TRUE), Flight("min", TRUE, FALSE, 2, 0, 2, 1, FALSE), Flight("none", FALSE, FALSE, 0, 0, 2, 1, FALSE)}
 =============================================================================
